@@ -237,6 +237,31 @@ def run_process(case):
                 key = "recorded-set-differs-from-documented-rules"
             res["violations"].append((key, "rules %s nohidden=%s: recorded but should be excluded %s; missing but should be included %s" %
                                       (conf_rules, nohidden, extra[:3], miss[:3]), rep))
+        # the order of the content lines changes: the lock file is created beside whichever copy is first, so a lock left
+        # beside the copy on the data disk is now beside a non-first copy - it is still one of the tool's own files
+        if idx % 2 == 0 and not res["violations"]:
+            a.write_conf(first_content=1)
+            r1 = a.cmd("sync", variant=variant)
+            lockp = a.cpaths()[1] + ".lock"
+            res["counters"]["lock_files_left_on_a_data_disk"] = 1 if os.path.exists(lockp) else 0
+            a.write_conf(first_content=0)
+            # something new to record, so that the scan result is saved
+            nb = b"added-after-reorder"
+            if scen._clear_path(fs, a.disks[0], nb):
+                fs.write(a.disks[0], nb, A.gen_bytes(rng, 700))
+                present[(a.disks[0], "added-after-reorder")] = "file"
+            r2 = a.cmd("sync", variant=variant)
+            if r1.rc != 0 or r2.rc != 0:
+                res["violations"].append(("sync-fails-after-content-reorder", "rc %s, %s: %s" % (r1.rc, r2.rc, (r1.err + r2.err)[-300:].decode("latin-1")), rep))
+            else:
+                _r, lfiles, llinks = list_dump(a, variant)
+                got2 = {(t[0].decode(), t[1].decode("latin-1")) for t in lfiles} | {(t[1].decode(), t[2].decode("latin-1")) for t in llinks}
+                ownnames = {(a.disk_names[d_], s_.decode("latin-1")) for d_, subs in own.items() for s_ in subs}
+                leaked = sorted(got2 & ownnames)
+                if leaked:
+                    res["violations"].append(("own-file-recorded-as-array-file", "after the content lines were reordered the array records %s" % leaked[:3], rep))
+                elif "added-after-reorder" in [p_ for (_d, p_) in got2] and filt.decide(rules, "added-after-reorder", False) is False:
+                    pass
         res["nontrivial"] = len(present) > 0
         res["n"] = 1
         res["sample"] = {"rules": conf_rules, "nohidden": nohidden, "paths": paths[:6]}
@@ -401,9 +426,9 @@ def main(tier, seed, replay, jobs, scale):
         import json
         cases = [tuple(json.load(open(replay))["replay"]["case"])]
     else:
-        nl = int((100 if tier == "quick" else 500) * scale)
-        npc = int((450 if tier == "quick" else 3000) * scale)
-        nsel = int((240 if tier == "quick" else 1000) * scale)
+        nl = int((100 if tier == "quick" else 3000) * scale)
+        npc = int((450 if tier == "quick" else 20000) * scale)
+        nsel = int((240 if tier == "quick" else 8000) * scale)
         cases = [("lib", seed, i, tier) for i in range(nl)] + [("proc", seed, i, tier) for i in range(npc)] + [("sel", seed, i, tier) for i in range(nsel)]
     results = list(par.run_cases(dispatch, cases, jobs))
     par.absorb(run, results)
